@@ -5,6 +5,8 @@ verus! {
 //@ include prelude/std.rs
 pub assume_specification [isize::saturating_add] (a: isize, b: isize) -> (r: isize)
     ensures r == (if a + b > isize::MAX { isize::MAX as int } else if a + b < isize::MIN { isize::MIN as int } else { a + b });
+//@ include prelude/error.rs
+//@ include prelude/runtime.rs
 //@ include prelude/value.rs
 use std::cmp;
 
